@@ -292,15 +292,17 @@ def check_merge_dispatch(ctx: Ctx):
         ctx.violate("SIBLING", site, fi, "the two kernel calls are not the two arms of the `inplace` test")
         return
     a, b = branch[True], branch[False]
-    same = U(a.func) == U(b.func) and [U(x) for x in a.args] == [U(x) for x in b.args]
-    opnds = [U(x) for x in a.args[:2]] == ["self.data", f"{other}.data"]
+    exa = [U(fv.expand(x, a, stop=("self", other))) for x in a.args[:2]]
+    exb = [U(fv.expand(x, b, stop=("self", other))) for x in b.args[:2]]
+    same = U(a.func) == U(b.func) and exa == exb and len(a.args) == len(b.args)
+    opnds = exa == ["self.data", f"{other}.data"]
     ctx.decide(same and opnds, "SIBLING", site + ":kernel", (fi, a), "both branches call self._merge_data(self.data, other.data, out=…)",
                f"branches differ: {U(a)} vs {U(b)}")
     # in-place: out is self.data, returns self
     oa = arg_or_kw(a, 2, "out")
     rets = [n.stmt for n in fv.return_nodes()]
     ret_in = [r for r in rets if {truth_of(dec, "inplace") for dec, _ in symbolic_paths(fv, r, [r.value])} == {True}]
-    ok = oa is not None and U(oa) == "self.data" and len(ret_in) == 1 and U(ret_in[0].value) == "self"
+    ok = oa is not None and U(fv.expand(oa, a, stop=("self", other))) == "self.data" and len(ret_in) == 1 and U(ret_in[0].value) == "self"
     ctx.decide(ok, "SIBLING", site + ":inplace", (fi, a), "in-place branch writes into self.data and returns self",
                f"in-place branch: out={U(oa) if oa is not None else None}")
     # copy branch: out fresh, returned object built from it
